@@ -217,7 +217,7 @@ Qed.
 (* the result of args_with_internal_git_profile *)
 Lemma awp_shape p args g s r : find_sub args = Some (g, s, r) -> p <> General ->
   args_with_internal_git_profile p args
-  = g ++ s :: missing_pins p (g ++ s :: strip_tail p r) ++ strip_tail p r.
+  = g ++ s :: missing_pins p (before_dd (strip_tail p r)) ++ strip_tail p r.
 Proof.
   intros H Hp. unfold args_with_internal_git_profile.
   rewrite (strip_shape p args g s r H Hp).
@@ -227,7 +227,7 @@ Qed.
 
 Lemma awp_find_sub p args g s r : find_sub args = Some (g, s, r) -> p <> General ->
   find_sub (args_with_internal_git_profile p args)
-  = Some (g, s, missing_pins p (g ++ s :: strip_tail p r) ++ strip_tail p r).
+  = Some (g, s, missing_pins p (before_dd (strip_tail p r)) ++ strip_tail p r).
 Proof.
   intros H Hp. rewrite (awp_shape p args g s r H Hp).
   unfold find_sub in *. exact (find_sub_with_app _ _ _ _ _ _ H _).
@@ -273,21 +273,14 @@ Proof.
   destruct (pin_facts p o H) as [_ [H2 _]]. exact H2.
 Qed.
 
-Definition pins_not_outside (p : profile) (g r : list str) : Prop :=
-  forall o, In o (profile_options p) -> ~ In o g /\ ~ In o (from_dd r).
-
 (* a pin is present in the option region of the result *)
-Lemma pin_in_region p g s r o :
-  is_dash s = false -> In o (profile_options p) -> ~ In o g -> ~ In o (from_dd r) ->
-  In o (missing_pins p (g ++ s :: strip_tail p r) ++ before_dd (strip_tail p r)).
+Lemma pin_in_region p r o :
+  In o (profile_options p) ->
+  In o (missing_pins p (before_dd (strip_tail p r)) ++ before_dd (strip_tail p r)).
 Proof.
-  intros Hs Ho Hg Hr. apply in_or_app.
-  destruct (mem_str o (g ++ s :: strip_tail p r)) eqn:M.
-  - right. apply mem_str_In in M. apply in_app_or in M as [M|M]; [contradiction|].
-    destruct M as [M|M].
-    + subst. destruct (pin_facts p o Ho) as [D _]. congruence.
-    + destruct (In_before_or_from _ _ M) as [B|F]; [exact B|].
-      rewrite strip_tail_from_dd in F. contradiction.
+  intros Ho. apply in_or_app.
+  destruct (mem_str o (before_dd (strip_tail p r))) eqn:M.
+  - right. apply mem_str_In. exact M.
   - left. apply missing_pins_in; [exact Ho|]. apply mem_str_false. exact M.
 Qed.
 
@@ -430,23 +423,21 @@ Definition survivors_tame (p : profile) (r : list str) : Prop :=
 (* the heart of C12_profile_pins, per component *)
 Lemma profile_pins_comp p cfg args g s r c v :
   find_sub args = Some (g, s, r) -> p <> General ->
-  pins_not_outside p g r -> survivors_tame p r ->
+  survivors_tame p r ->
   canonical p c = Some v ->
   effective cfg (args_with_internal_git_profile p args) c = Some v.
 Proof.
-  intros Hf Hp Hout Htame Hc.
+  intros Hf Hp Htame Hc.
   unfold effective. rewrite git_globals_agree.
   pose proof (awp_find_sub p args g s r Hf Hp) as Hr. unfold find_sub in Hr. rewrite Hr.
   rewrite (before_dd_app _ _ (missing_pins_nodd p _)).
-  assert (Hs : is_dash s = false) by (exact (proj2 (find_sub_with_spec _ _ _ _ _ _ Hf))).
-  assert (Q : Forall (quiet c v) (missing_pins p (g ++ s :: strip_tail p r) ++ before_dd (strip_tail p r))).
+  assert (Q : Forall (quiet c v) (missing_pins p (before_dd (strip_tail p r)) ++ before_dd (strip_tail p r))).
   { apply Forall_forall. intros t Ht. apply in_app_or in Ht as [Ht|Ht].
     - apply missing_pins_sub in Ht as [Ht _]. destruct (pin_facts p t Ht) as [_ [_ T]].
       exact (tame_quiet p c v t Hc T).
     - apply strip_tail_survivors in Ht as [H1 H2]. exact (tame_quiet p c v t Hc (Htame t H1 H2)). }
   destruct (canonical_witness p c v Hc) as [o [Ho He]].
-  destruct (Hout o Ho) as [Hg Hd].
-  pose proof (pin_in_region p g s r o Hs Ho Hg Hd) as Hin.
+  pose proof (pin_in_region p r o Ho) as Hin.
   rewrite (scan_hit c v _ Q); [reflexivity|].
   apply Exists_exists. exists o. split; [exact Hin|exact He].
 Qed.
@@ -459,10 +450,10 @@ Qed.
 
 Lemma profile_pins p cfg args g s r :
   find_sub args = Some (g, s, r) ->
-  pins_not_outside p g r -> survivors_tame p r ->
+  survivors_tame p r ->
   fmt_agree_on (pinned_comps p) (effective_fmt cfg (args_with_internal_git_profile p args)) (canonical_fmt p).
 Proof.
-  intros Hf Hout Htame c Hc.
+  intros Hf Htame c Hc.
   destruct p; try (destruct Hc; fail).
   all: destruct (pinned_comps_spec _ c Hc) as [v Hv];
     unfold effective_fmt, canonical_fmt; rewrite !fmt_get_of; rewrite Hv;
@@ -525,18 +516,73 @@ Proof. destruct p, c; try (right; vm_compute; reflexivity). left. split; reflexi
 
 (* ------------------------------------------------------------------ global arguments *)
 
-Lemma normalize_shape ga root : normalised_shape ga = true -> normalize_global_args ga root = [gen_norm_flag; root].
+Lemma normalize_shape ga root base gd : normalised_shape ga = true -> normalize_global_args ga root base gd = [gen_norm_flag; root].
 Proof.
   destruct ga as [|f [|x [|y ga]]]; cbn; intros H; try discriminate; [reflexivity|].
-  rewrite H. cbn. destruct (str_eqb x root) eqn:E; cbn.
+  rewrite H. destruct (str_eqb x root) eqn:E; cbn.
   - apply str_eqb_eq in E. apply str_eqb_eq in H. subst. reflexivity.
   - apply str_eqb_eq in H. subst. reflexivity.
 Qed.
 
-Lemma normalize_other ga root : normalised_shape ga = false -> normalize_global_args ga root = ga.
+Lemma normalize_other ga root base gd : normalised_shape ga = false ->
+  normalize_global_args ga root base gd = other_shape_args ga root base gd.
 Proof.
-  destruct ga as [|f [|x [|y ga]]]; cbn; intros H; try discriminate; try reflexivity.
+  destruct ga as [|f [|x [|y ga]]]; cbn [normalised_shape normalize_global_args]; intros H; try discriminate; try reflexivity.
   rewrite H. reflexivity.
+Qed.
+
+Lemma normalize_ends ga root base gd : exists pre, normalize_global_args ga root base gd = pre ++ [gen_norm_flag; root].
+Proof.
+  destruct (normalised_shape ga) eqn:E.
+  - exists []. apply normalize_shape. exact E.
+  - rewrite (normalize_other _ _ _ _ E). unfold other_shape_args. rewrite app_assoc. eexists. reflexivity.
+Qed.
+
+Lemma norm_flag_takes_value : takes_value_in gen_value_globals gen_norm_flag = true.
+Proof. vm_compute. reflexivity. Qed.
+
+Lemma globals_ok_head_dash x l : globals_ok (x :: l) -> is_dash x = true.
+Proof.
+  intros H. inversion H; subst; [apply takes_value_dash; assumption|assumption].
+Qed.
+
+(* a well-formed vector of global options that ends with `-C root` (root absolute) ends up in root *)
+Lemma final_dir_ends l : globals_ok l -> forall pre root cur,
+  l = pre ++ [gen_norm_flag; root] -> path_is_relative root = false ->
+  final_dir gen_value_globals cur l false = root.
+Proof.
+  induction 1 as [|o v g Ho Hg IH|o g Hd Ho Hg IH]; intros pre root cur E Habs.
+  - destruct pre; discriminate.
+  - cbn [final_dir].
+    destruct pre as [|p0 [|p1 pre]].
+    + cbn in E. inversion E; subst. rewrite str_eqb_refl. cbn [final_dir].
+      unfold path_join. rewrite Habs. reflexivity.
+    + cbn in E. inversion E; subst. exfalso.
+      (* g = [root]: root would have to be an option *)
+      pose proof (globals_ok_head_dash _ _ Hg) as D.
+      unfold path_is_relative in Habs. apply negb_false_iff in Habs.
+      unfold is_dash, first_is in *. destruct root as [|c root]; [discriminate|].
+      apply N.eqb_eq in Habs. apply N.eqb_eq in D. subst. discriminate.
+    + cbn in E. inversion E; subst.
+      destruct (str_eqb p0 gen_norm_flag) eqn:Eo.
+      * eapply IH; eauto.
+      * rewrite Ho. cbn [final_dir]. eapply IH; eauto.
+  - cbn [final_dir].
+    assert (Eo : str_eqb o gen_norm_flag = false).
+    { apply str_eqb_neq. intros X. subst. rewrite norm_flag_takes_value in Ho. discriminate. }
+    rewrite Eo, Ho.
+    destruct pre as [|p0 pre].
+    + cbn in E. inversion E; subst. rewrite norm_flag_takes_value in Ho. discriminate.
+    + cbn in E. inversion E; subst. eapply IH; eauto.
+Qed.
+
+Lemma normalized_final_dir ga root base gd cur :
+  path_is_relative root = false -> globals_ok (normalize_global_args ga root base gd) ->
+  final_dir git_value_globals cur (normalize_global_args ga root base gd) false = root.
+Proof.
+  intros Habs Hok. rewrite git_globals_agree.
+  destruct (normalize_ends ga root base gd) as [pre E].
+  eapply final_dir_ends; eauto.
 Qed.
 
 Lemma exec_globals_no_pager ga : In gen_exec_global_opt (global_args_for_exec ga).
@@ -593,40 +639,36 @@ Proof.
 Qed.
 
 Lemma pins_present p args g s r o :
-  find_sub args = Some (g, s, r) -> In o (profile_options p) -> ~ In o g -> ~ In o (from_dd r) ->
+  find_sub args = Some (g, s, r) -> In o (profile_options p) ->
   exists r', find_sub (args_with_internal_git_profile p args) = Some (g, s, r') /\
              In o (before_dd r') /\ from_dd r' = from_dd r /\
-             (~ In o r -> count_str o (args_with_internal_git_profile p args) = 1%nat).
+             (~ In o (before_dd r) -> count_str o (before_dd r') = 1%nat).
 Proof.
-  intros Hf Ho Hg Hd.
+  intros Hf Ho.
   assert (Hp : p <> General) by (intros E; subst; destruct Ho).
-  assert (Hs : is_dash s = false) by (exact (proj2 (find_sub_with_spec _ _ _ _ _ _ Hf))).
   eexists. split; [exact (awp_find_sub p args g s r Hf Hp)|].
   split; [|split].
-  - rewrite (before_dd_app _ _ (missing_pins_nodd p _)). exact (pin_in_region p g s r o Hs Ho Hg Hd).
+  - rewrite (before_dd_app _ _ (missing_pins_nodd p _)). exact (pin_in_region p r o Ho).
   - rewrite (from_dd_app _ _ (missing_pins_nodd p _)). apply strip_tail_from_dd.
-  - intros Hr. rewrite (awp_shape p args g s r Hf Hp).
-    assert (Hst : ~ In o (strip_tail p r)) by (intros HI; apply Hr; eapply In_strip_tail; eauto).
-    assert (Hso : str_eqb s o = false).
-    { apply str_eqb_neq. intros E. subst. destruct (pin_facts p o Ho) as [D _]. congruence. }
-    rewrite count_str_app. cbn [count_str]. rewrite Hso. rewrite count_str_app.
-    rewrite (count_str_notin o g Hg). rewrite (count_str_notin o _ Hst).
-    rewrite (count_str_nodup o (missing_pins p (g ++ s :: strip_tail p r))).
+  - intros Hr. rewrite (before_dd_app _ _ (missing_pins_nodd p _)).
+    assert (Hst : ~ In o (before_dd (strip_tail p r))).
+    { intros HI. apply Hr. exact (proj1 (strip_tail_survivors p r o HI)). }
+    rewrite count_str_app. rewrite (count_str_notin o _ Hst).
+    rewrite (count_str_nodup o (missing_pins p (before_dd (strip_tail p r)))).
     + reflexivity.
     + unfold missing_pins. apply filter_nodup. apply pins_nodup.
-    + apply missing_pins_in; [exact Ho|]. intros HI. apply in_app_or in HI as [HI|HI]; [contradiction|].
-      destruct HI as [HI|HI]; [|contradiction]. subst. rewrite str_eqb_refl in Hso. discriminate.
+    + apply missing_pins_in; [exact Ho|exact Hst].
 Qed.
 
 Lemma config_independent p cfg1 cfg2 args g s r :
-  find_sub args = Some (g, s, r) -> pins_not_outside p g r -> survivors_tame p r ->
+  find_sub args = Some (g, s, r) -> survivors_tame p r ->
   fmt_agree_on (pinned_comps p)
     (effective_fmt cfg1 (args_with_internal_git_profile p args))
     (effective_fmt cfg2 (args_with_internal_git_profile p args)).
 Proof.
-  intros Hf Ho Ht c Hc.
-  rewrite (profile_pins p cfg1 args g s r Hf Ho Ht c Hc).
-  rewrite (profile_pins p cfg2 args g s r Hf Ho Ht c Hc). reflexivity.
+  intros Hf Ht c Hc.
+  rewrite (profile_pins p cfg1 args g s r Hf Ht c Hc).
+  rewrite (profile_pins p cfg2 args g s r Hf Ht c Hc). reflexivity.
 Qed.
 
 Lemma drop_complete p c t v w :
@@ -635,16 +677,6 @@ Lemma drop_complete p c t v w :
 Proof.
   intros Hn. destruct (drop_complete_all p c) as [H|H]; [contradiction|].
   apply drop_complete_sound. exact H.
-Qed.
-
-Lemma pins_not_outside_b_spec p g r : pins_not_outside_b p g r = true <-> pins_not_outside p g r.
-Proof.
-  unfold pins_not_outside_b, pins_not_outside. rewrite forallb_forall. split.
-  - intros H o Ho. specialize (H o Ho). apply andb_true_iff in H as [H1 H2].
-    apply negb_true_iff in H1. apply negb_true_iff in H2.
-    split; apply mem_str_false; assumption.
-  - intros H o Ho. destruct (H o Ho) as [H1 H2]. apply andb_true_iff.
-    split; apply negb_true_iff; apply mem_str_false; assumption.
 Qed.
 
 Lemma survivors_tame_b_spec p r : survivors_tame_b p r = true <-> survivors_tame p r.
